@@ -57,8 +57,12 @@ static std::vector<std::vector<uint64_t>> value_lists(const OpDef& d, TypeId t, 
         {
             const int emax = t == F32 ? 127 : 1023, emin = t == F32 ? -126 : -1022;
             std::vector<uint64_t> e;
-            for (int v : { emin, emin + 1, emin + 2, -64, -24, -2, -1, 0, 1, 2, 24, 64, emax - 2, emax - 1, emax })
+            for (int v : { emin, emin + 1, emin + 2, -64, -24, -2, -1, 0, 1, 2, 24, 64, emax - 2, emax - 1, emax,
+                           emin - 1, emin - 2, emin - 25, emax + 1, emax + 2, 2 * emax, -2 * emax, 100000, -100000 })
                 e.push_back((uint64_t)(int64_t)v);
+            if (t == F64)
+                for (int64_t v : { ((int64_t)1 << 32) + 1, -((int64_t)1 << 32) - 3 })
+                    e.push_back((uint64_t)v);
             L.push_back(e);
         }
         else
